@@ -225,7 +225,86 @@ def check_boot(arg):
     return ("ok", rec, None)
 
 
+# ------------------------------------------------------------------------------------------------ delta method
+
+PNAMES = ["TVCL", "ALPHA", "KA", "BETA"]  # covariance-matrix orders are permuted; alphabetical order is ALPHA, BETA, KA, TVCL
+
+
+def build_delta(tier, seed):
+    rng = random.Random(seed * 911 + 4)
+    P = 4
+    # covariance = L L^T with a small integer lower-triangular L: symmetric, positive definite, integer
+    L = [[(rng.randint(1, 3) if i == j else (rng.randint(-2, 2) if j < i else 0)) for j in range(P)] for i in range(P)]
+    cov = [[sum(L[i][k] * L[j][k] for k in range(P)) for j in range(P)] for i in range(P)]
+    vals = [rng.choice([2, 3, 5, 7]) for _ in range(P)]
+    exprs = [
+        [{"c": 2, "vars": [1]}, {"c": -3, "vars": [2]}],  # linear, two parameters
+        [{"c": 1, "vars": [1, 3]}],  # product
+        [{"c": 1, "vars": [4, 2]}, {"c": 5, "vars": [3]}],  # product + linear, three parameters
+        [{"c": 1, "vars": [1]}, {"c": 2, "vars": [2]}, {"c": -1, "vars": [3]}, {"c": 3, "vars": [4]}],
+        [{"c": 4, "vars": [2]}],  # single parameter
+    ]
+    for _ in range({"quick": 2, "thorough": 8}[tier]):
+        a, b, c = rng.sample(range(1, P + 1), 3)
+        exprs.append([{"c": rng.choice([1, 2, -1]), "vars": [a, b]}, {"c": rng.choice([1, -2, 3]), "vars": [c]}])
+    return {"vals": vals, "cov": cov, "exprs": exprs}
+
+
+def tlc_delta(tier, seed, v):
+    inp = build_delta(tier, seed)
+    d = core.scratch("c19dm")
+    try:
+        (d / "in.json").write_text(json.dumps(inp))
+        res = core.run_tlc(SPEC / "DeltaMethod.tla", SPEC / "DeltaMethod.cfg", workers=4, timeout=3000, env={"DELTA": d / "in.json"})
+    finally:
+        shutil.rmtree(d, ignore_errors=True)
+    core.require_ok(res, "DeltaMethod.tla")
+    if res.violated:
+        raise core.MachineryError(f"DeltaMethod.tla: {res.violated} violated:\n" + "\n".join(res.trace[-2:])[:2000])
+    core.require_actions(res, ["DoPlace"], "DeltaMethod.tla")
+    core.tlc_stats_into(v, res)
+    cases = [c for t, c in res.prints if t == "DELTA"]
+    if not cases:
+        raise core.MachineryError("DeltaMethod.tla emitted no cases")
+    v.add_coverage(delta_tlc={"states": res.distinct, "cases": len(cases)})
+    return inp, cases
+
+
+def check_delta(inp, case):
+    import pandas as pd
+    import sympy
+    from pharmpy.internals.math import se_delta_method
+
+    names = [PNAMES[p - 1] for p in case["order"]]
+    cov = pd.DataFrame([[float(inp["cov"][p - 1][q - 1]) for q in case["order"]] for p in case["order"]], index=names, columns=names)
+    syms = {i + 1: sympy.Symbol(n) for i, n in enumerate(PNAMES)}
+    expr = sum(m["c"] * sympy.Mul(*[syms[x] for x in m["vars"]]) for m in inp["exprs"][case["ex"] - 1])
+    values = {n: float(x) for n, x in zip(PNAMES, inp["vals"])}
+    used = sorted({x for m in inp["exprs"][case["ex"] - 1] for x in m["vars"]})
+    mat_order = [PNAMES[p - 1] for p in case["order"] if p in used]
+    rec = {"check": "delta_method", "expr": str(expr), "matrix_order": names, "values": values, "cov": inp["cov"], "outcome": None,
+           "n_params": len(used), "matrix_order_alphabetical": mat_order == sorted(mat_order)}
+    try:
+        se = float(se_delta_method(expr, values, cov))
+        if not _close(se * se, float(case["var"])):
+            rec["outcome"] = "value"
+            return ("violation", rec, f"se_delta_method({expr}, covariance listed as {names}) = {se} (se^2 = {se * se}), "
+                                      f"gradient^T cov gradient with every parameter on its own row/column = {case['var']}")
+    except Exception as e:
+        rec["outcome"] = type(e).__name__
+        return ("violation", rec, f"se_delta_method({expr}, covariance listed as {names}): {type(e).__name__}: {str(e)[:200]}")
+    return ("ok", rec, None)
+
+
 def run(tier, seed, v):
+    dinp, dcases = tlc_delta(tier, seed, v)
+    dstat = Counter()
+    for c in dcases:
+        status, rec, what = check_delta(dinp, c)
+        dstat["delta_" + status] += 1
+        if status == "violation":
+            v.violation(rec, what)
+    v.add_coverage(delta_method=dict(dstat), evaluations=len(dcases), traces_validated_against_impl=len(dcases))
     inp, cases = tlc_cases(tier, seed, v)
     import pharmpy.tools.bootstrap.results  # noqa: F401
     import pharmpy.tools.cdd.results  # noqa: F401
